@@ -52,6 +52,25 @@ func plyLayout(k int) []*ff.PLYProperty {
 	}
 }
 
+// plyAlias: the second spelling of a property type
+func plyAlias(t ff.PLYPropertyType) ff.PLYPropertyType {
+	pairs := [][2]ff.PLYPropertyType{
+		{ff.PLYPropertyTypeChar, ff.PLYPropertyTypeInt8}, {ff.PLYPropertyTypeUchar, ff.PLYPropertyTypeUint8},
+		{ff.PLYPropertyTypeShort, ff.PLYPropertyTypeInt16}, {ff.PLYPropertyTypeUshort, ff.PLYPropertyTypeUint16},
+		{ff.PLYPropertyTypeInt, ff.PLYPropertyTypeInt32}, {ff.PLYPropertyTypeUint, ff.PLYPropertyTypeUint32},
+		{ff.PLYPropertyTypeFloat, ff.PLYPropertyTypeFloat32}, {ff.PLYPropertyTypeDouble, ff.PLYPropertyTypeFloat64},
+	}
+	for _, p := range pairs {
+		if t == p[0] {
+			return p[1]
+		}
+		if t == p[1] {
+			return p[0]
+		}
+	}
+	return t
+}
+
 var f32Palette = []float32{0, float32(math.Copysign(0, -1)), 1.5, math.MaxFloat32, 1e-40, -2.75, 1.0 / 3, 16777216, -math.SmallestNonzeroFloat32}
 var f64Palette = []float64{0, math.Copysign(0, -1), 1.0 / 3, 1e300, 5e-324, -2.5, math.MaxFloat64, 0.1, 123456789.123456789}
 
@@ -313,7 +332,17 @@ func plyTrace(id int, counts []int, format ff.PLYFormat, rot int, rng *rand.Rand
 	for i, c := range counts {
 		lay := (i+rot)%4 + 1
 		rec.Layout = append(rec.Layout, lay)
-		hdr.Elements = append(hdr.Elements, &ff.PLYElement{Name: names[i%4], Count: int64(c), Properties: plyLayout(lay)})
+		props := plyLayout(lay)
+		if id%2 == 1 {
+			// the other spelling of every type ("uint32" for "uint", "float64" for "double", ...)
+			for _, p := range props {
+				p.ElemType = plyAlias(p.ElemType)
+				if p.LenType != ff.PLYPropertyTypeNone {
+					p.LenType = plyAlias(p.LenType)
+				}
+			}
+		}
+		hdr.Elements = append(hdr.Elements, &ff.PLYElement{Name: names[i%4], Count: int64(c), Properties: props})
 	}
 	total := 0
 	for _, c := range counts {
